@@ -702,4 +702,8 @@ func runC10(c *Ctx) {
 	c.mergeRule("sbom.(*Node).Update", false, nodeIdentity)
 	lookupCriterionRule(c, "sbom.(*NodeList).GetEdgeByType")
 	c.floor("intersection-membership", 2, "node append and root append")
+	const RL = "loop-totality"
+	c.rule(RL, loopRuleText)
+	lds := pkgFilter(c.reachDecls(RL, "sbom.(*NodeList).Intersect"), "sbom.(*NodeList).", "sbom.(*Edge).AddDestinationById")
+	c.loopTotality(RL, lds, loopPolicies, commonSkips)
 }
